@@ -186,3 +186,31 @@ package adt
 //@ func IsConcrete
 //@   assumed A-int: concreteness of a value; for the scalar types it is true
 //@   ensures scalarV(v) ==> result
+
+//@ func (Op).Token
+//@   assumed A-int: lookup in the immutable opMap table
+//@   pure
+
+// ---- C07: predeclared range names are printed only for exactly matching conjunctions ----
+//@ invariant builtinRangesWF: (forall k int :: 0 <= k && k < len(intBuiltinRanges) ==> intBuiltinRanges[k].lo != nil && intBuiltinRanges[k].hi != nil && wfDec(intBuiltinRanges[k].lo) && wfDec(intBuiltinRanges[k].hi)) && (forall k int :: 0 <= k && k < len(floatBuiltinRanges) ==> floatBuiltinRanges[k].lo != nil && floatBuiltinRanges[k].hi != nil && wfDec(floatBuiltinRanges[k].lo) && wfDec(floatBuiltinRanges[k].hi))
+
+//@ spec func isIntType(v Value) bool { isType(v, *BasicType) && v.(*BasicType) != nil && v.(*BasicType).K == IntKind }
+//@ spec func isGE(v Value) bool { isType(v, *BoundValue) && v.(*BoundValue) != nil && isNumV(v.(*BoundValue).Value) && v.(*BoundValue).Op == GreaterEqualOp }
+//@ spec func isLE(v Value) bool { isType(v, *BoundValue) && v.(*BoundValue) != nil && isNumV(v.(*BoundValue).Value) && v.(*BoundValue).Op == LessEqualOp }
+
+// (P) C07: a name is returned only if the conjunction consists of nothing but at
+// most one `int`, at most one >=lo and at most one <=hi (so nothing is silently
+// dropped when the name is printed instead of the conjunction)
+//@ func MatchBuiltinRange
+//@   strings abstract
+//@   requires c != nil
+//@   requires forall k int :: 0 <= k && k < len(c.Values) && isType(c.Values[k], *BoundValue) && c.Values[k].(*BoundValue) != nil ==> scalarV(c.Values[k].(*BoundValue).Value) && wfV(c.Values[k].(*BoundValue).Value)
+//@   requires forall k int :: 0 <= k && k < len(c.Values) ==> (isType(c.Values[k], *BasicType) ==> c.Values[k].(*BasicType) != nil) && (isType(c.Values[k], *BoundValue) ==> c.Values[k].(*BoundValue) != nil)
+//@   loop 0 invariant -1 <= rangeindex && rangeindex < len(c.Values)
+//@   loop 0 invariant forall k int :: 0 <= k && k <= rangeindex ==> isIntType(c.Values[k]) || isGE(c.Values[k]) || isLE(c.Values[k])
+//@   loop 0 invariant (!hasInt ==> forall k int :: 0 <= k && k <= rangeindex ==> !isIntType(c.Values[k])) && (lo == nil ==> forall k int :: 0 <= k && k <= rangeindex ==> !isGE(c.Values[k])) && (hi == nil ==> forall k int :: 0 <= k && k <= rangeindex ==> !isLE(c.Values[k]))
+//@   loop 0 invariant forall j, k int :: 0 <= j && j < k && k <= rangeindex ==> !(isIntType(c.Values[j]) && isIntType(c.Values[k])) && !(isGE(c.Values[j]) && isGE(c.Values[k])) && !(isLE(c.Values[j]) && isLE(c.Values[k]))
+//@   loop 0 invariant (lo != nil ==> wfDec(lo.X) && lo.X.Form == apd.Finite) && (hi != nil ==> wfDec(hi.X) && hi.X.Form == apd.Finite)
+//@   loop 1 invariant -1 <= rangeindex
+//@   ensures [only] len(result) > 0 ==> forall k int :: 0 <= k && k < len(c.Values) ==> isIntType(c.Values[k]) || isGE(c.Values[k]) || isLE(c.Values[k])
+//@   ensures [unique] len(result) > 0 ==> forall j, k int :: 0 <= j && j < k && k < len(c.Values) ==> !(isIntType(c.Values[j]) && isIntType(c.Values[k])) && !(isGE(c.Values[j]) && isGE(c.Values[k])) && !(isLE(c.Values[j]) && isLE(c.Values[k]))
